@@ -97,7 +97,3 @@ func cmdVerify(args []string) {
 	}
 }
 
-func cmdCheck(args []string) {
-	fmt.Fprintln(os.Stderr, "not yet")
-	os.Exit(2)
-}
